@@ -82,6 +82,43 @@ fn sample_readers(r: &mut AllReaders, take: bool) -> (Readers, Vec<Pl>)
         taken = r.se.take().ok();
         taken2 = r.se.take().ok();
     }
+    // every accessor form of every reader must agree with the `try_read` / `get` form that is recorded
+    let mut bad: Vec<&'static str> = Vec::new();
+    macro_rules! agree_event { ($r:expr, $name:literal) => {
+        match $r.try_read()
+        {
+            Ok(_) => { if $r.is_empty() { bad.push(concat!($name, ".is_empty")); } let _ = $r.read(); }
+            Err(_) => { if !$r.is_empty() { bad.push(concat!($name, ".is_empty")); } }
+        }
+    } }
+    agree_event!(r.ba, "BroadcastEvent<EvA>");
+    agree_event!(r.bb, "BroadcastEvent<EvB>");
+    agree_event!(r.ea, "EntityEvent<EvA>");
+    agree_event!(r.eb, "EntityEvent<EvB>");
+    macro_rules! agree_entity_event { ($r:expr, $name:literal) => {
+        match $r.try_read()
+        {
+            Ok((e, _)) => { if $r.get_entity().ok() != Some(e) || $r.entity() != e || $r.read().0 != e { bad.push(concat!($name, ".entity")); } }
+            Err(_) => { if $r.get_entity().is_ok() { bad.push(concat!($name, ".get_entity")); } }
+        }
+    } }
+    agree_entity_event!(r.ea, "EntityEvent<EvA>");
+    agree_entity_event!(r.eb, "EntityEvent<EvB>");
+    macro_rules! agree_entity { ($r:expr, $name:literal) => {
+        match $r.get()
+        {
+            Ok(e) => { if $r.is_empty() || $r.entity() != e { bad.push($name); } }
+            Err(_) => { if !$r.is_empty() { bad.push($name); } }
+        }
+    } }
+    agree_entity!(r.ia, "InsertionEvent<CA>");
+    agree_entity!(r.ib, "InsertionEvent<CB>");
+    agree_entity!(r.ma, "MutationEvent<CA>");
+    agree_entity!(r.mb, "MutationEvent<CB>");
+    agree_entity!(r.ra, "RemovalEvent<CA>");
+    agree_entity!(r.rb, "RemovalEvent<CB>");
+    agree_entity!(r.de, "DespawnEvent");
+    for b in bad { push(TEv::Value{ what: format!("reader-api-inconsistent:{b}"), value: 0 }); }
     let out = with_ctx(|c| {
         Readers{
             sys: taken.as_ref().map(|p| p.0),
